@@ -530,6 +530,11 @@ func (r *RowCache) uuidsByConditionsAsIndexes(conditions []ovsdb.Condition, nati
 		if condition.Function == ovsdb.ConditionIncludes && isSet {
 			return nil
 		}
+		if condition.Function == ovsdb.ConditionIncludes && v.Kind() == reflect.Ptr && v.IsNil() {
+			// an optional column includes the empty set whatever its value,
+			// which is not the same as being unset
+			return nil
+		}
 		keys := []interface{}{}
 		if v.Kind() == reflect.Map && condition.Function == ovsdb.ConditionIncludes {
 			for _, key := range v.MapKeys() {
